@@ -245,6 +245,135 @@ def run_unit(component, seed, count, tag=''):
 
 
 # ---------------------------------------------------------------------------
+# M2: step-controlled simulation + monitors
+# ---------------------------------------------------------------------------
+
+# monitor failure code -> properties it speaks about (see coq/theories/MonWire.v, MonApp.v)
+def code_props(code):
+    table = {1302: ['C13', 'C08'], 1307: ['C13', 'C06'], 1313: ['C13', 'C11'], 1315: ['C13', 'C11'], 1103: ['C11', 'C13'],
+             602: ['C06', 'C05'], 603: ['C06', 'C05'], 901: ['C09', 'C15'], 1104: ['C11'], 1105: ['C11']}
+    if code in table:
+        return table[code]
+    return ['C%02d' % (code // 100)]
+
+CODE_TEXT = {
+    101: 'delivered messages are not a prefix of the submitted ones', 102: 'end-of-stream reported although the message sequence is incomplete',
+    103: 'more messages delivered than submitted', 201: 'caller outcome differs from the status the handler returned',
+    202: 'caller got success although the handler never returned OK', 203: 'Trailer() differs from the handler trailers at the terminal result',
+    204: 'grpc.Trailer target differs from the handler trailers', 206: 'Header() differs from the handler headers', 207: 'grpc.Header target differs',
+    208: 'Header() blocked although a response message had been received', 209: 'handler saw request metadata different from what the caller attached',
+    210: 'a later terminal result differs from the first', 301: 'tunnel ended / failed to start without any tunnel-level cause',
+    401: 'a call is still pending after the tunnel ended', 402: 'Done() not closed after the tunnel ended', 403: 'Err() not nil after a clean close',
+    404: 'Err() nil after a failure', 405: 'RPC started on a finished tunnel did not fail immediately', 406: 'Serve did not return after the tunnel ended',
+    602: 'sender has more un-credited bytes outstanding than the window', 603: 'credit granted exceeds data delivered',
+    701: 'caller observed success after cancel without handler OK', 703: 'caller operation did not return when its context was cancelled',
+    704: 'handler operation still pending after the cancel notice was delivered', 802: 'handler invoked twice for one RPC', 803: 'wrong handler invoked',
+    901: 'panic', 1001: 'handler started for an RPC begun after shutdown', 1002: 'RPC begun after shutdown was not refused with Unavailable',
+    1003: 'tunnel ended after graceful shutdown was initiated', 1103: 'settings frame present/absent contrary to advertisement',
+    1301: 'settings not first / wrong stream id', 1302: 'frame before new_stream or stream ids not increasing', 1303: 'headers twice or after a message',
+    1304: 'envelope before previous message finished', 1305: 'continuation without envelope', 1306: 'continuation exceeds announced size',
+    1307: 'data frame larger than 16 KiB', 1308: 'frame after close_stream', 1309: 'second close_stream', 1310: 'request data after half-close',
+    1311: 'second half-close', 1312: 'second cancel', 1313: 'window_update on a revision-zero stream', 1314: 'unknown frame emitted',
+    1315: 'new_stream revision differs from the negotiated one', 1401: 'goroutines left after everything ended',
+    1402: 'client stream table differs from the RPCs in flight', 1403: 'server stream table differs from the RPCs in flight',
+    1601: 'second request message delivered to a non-streaming handler', 1602: 'second send accepted on a non-streaming side',
+    1604: 'handler got a message although several were sent', 1605: 'caller got success on a bad number of response messages',
+    1606: 'caller got success although the handler did not return OK', 1701: 'tunnel metadata differs', 1702: 'peer differs',
+    1703: 'interceptor context value differs', 1704: 'wrong tunnel channel identified', 1801: 'handler deadline differs from the grpc-timeout header',
+    1802: 'handler deadline present/absent contrary to the grpc-timeout header',
+}
+
+
+def sim_cache_key(family, seed, count, extra=''):
+    h = hashlib.sha256()
+    h.update(repo_hash().encode())
+    for p in tree_files(os.path.join(HARNESS, 'sim'), ('.go',)) + tree_files(os.path.join(COQ, 'theories'), ('.v',)) + \
+            [os.path.join(VALIDATOR, 'driver.ml'), os.path.join(COQ, 'gen', 'Params.v')]:
+        h.update(open(p, 'rb').read())
+    h.update(('%s|%s|%s|%s' % (family, seed, count, extra)).encode())
+    return h.hexdigest()[:24]
+
+
+def run_sim(family, seed, count, scenario_file=None, keep_trace=False):
+    """Run a scenario family (or a scenario file) through the real library in the simulation
+    harness and evaluate the extracted monitors on every trace.  Results are cached under
+    .cache keyed by the content of /repo, the harness and the model (DESIGN.md section 5)."""
+    os.makedirs(os.path.join(VERIF, '.cache'), exist_ok=True)
+    extra = ''
+    if scenario_file:
+        extra = hashlib.sha256(open(scenario_file, 'rb').read()).hexdigest()
+    key = sim_cache_key(family, seed, count, extra)
+    cpath = os.path.join(VERIF, '.cache', 'sim-%s.json' % key)
+    if os.path.exists(cpath) and not keep_trace:
+        try:
+            r = json.load(open(cpath))
+            r['cached'] = True
+            return r
+        except Exception:
+            pass
+    trace = os.path.join(WORK, 'sim-%s-%d-%d.trace' % (family, seed, os.getpid()))
+    env = dict(os.environ, SIM_OUT=trace, SIM_SEED=str(seed), SIM_COUNT=str(count))
+    if scenario_file:
+        env['SIM_IN'] = scenario_file
+        env.pop('SIM_FAMILY', None)
+    else:
+        env['SIM_FAMILY'] = family
+    t0 = time.time()
+    rc, o, dt = run([os.path.join(BIN, 'sim.test'), '-test.run', 'TestSim', '-test.timeout', '3000s'], env=env, timeout=3300)
+    res = {'family': family, 'seed': seed, 'count': count, 'scenarios': 0, 'events': 0, 'failures': [], 'abnormal': [],
+           'go_s': round(dt, 1), 'error': None, 'cached': False, 'samples': [], 'actions': {}, 'configs': {}}
+    if not os.path.exists(trace):
+        res['error'] = 'simulation produced no trace (exit %d): %s' % (rc, o[-1500:])
+        return res
+    rc2, mo, dt2 = run([os.path.join(BIN, 'vmodel'), 'trace', trace], timeout=3300)
+    res['model_s'] = round(dt2, 1)
+    if rc2 != 0:
+        res['error'] = 'validator failed (exit %d): %s' % (rc2, mo[-1500:])
+        return res
+    for line in mo.splitlines():
+        f = line.split(' ')
+        if len(f) < 4 or f[0] != 'T':
+            continue
+        res['scenarios'] += 1
+        res['events'] += int(f[3])
+        if f[2] != 'ok':
+            res['abnormal'].append({'scenario': f[1], 'status': f[2]})
+        for tok in f[4:]:
+            m = re.match(r'(\d+)@(\d+)\((-?\d+),(-?\d+)\)', tok)
+            if m:
+                res['failures'].append({'scenario': f[1], 'code': int(m.group(1)), 'act': int(m.group(2)),
+                                        'a': int(m.group(3)), 'b': int(m.group(4))})
+    # input distribution: action kinds and configurations, a few sample lines
+    acts, cfgs = {}, {}
+    nsample = 0
+    with open(trace, errors='replace') as fh:
+        for line in fh:
+            if line.startswith('A '):
+                k = line.split(' ', 3)[2].strip()
+                acts[k] = acts.get(k, 0) + 1
+            elif line.startswith('S '):
+                c = line.split(' ', 2)[2].strip()
+                cfgs[c] = cfgs.get(c, 0) + 1
+            if nsample < 12 and (line.startswith('E ') and ('emit' in line or 'ret who' in line)) and 'probe' not in line:
+                if nsample % 3 == 0 or len(res['samples']) < 4:
+                    res['samples'].append(line.strip()[:220])
+                nsample += 1
+    res['actions'], res['configs'] = acts, cfgs
+    res['samples'] = res['samples'][:4]
+    if 'FAIL' in o and 'panic' in o:
+        res['abnormal'].append({'scenario': '?', 'status': 'test binary reported: ' + o[-600:]})
+    if res['failures'] or res['abnormal'] or keep_trace:
+        keep = os.path.join(WORK, 'replay', 'trace-%s-%d.trace' % (family, seed))
+        os.makedirs(os.path.dirname(keep), exist_ok=True)
+        os.replace(trace, keep)
+        res['trace'] = keep
+    else:
+        os.remove(trace)
+    json.dump(res, open(cpath, 'w'))
+    return res
+
+
+# ---------------------------------------------------------------------------
 # known findings
 # ---------------------------------------------------------------------------
 
@@ -293,6 +422,32 @@ class Verdict:
                                 'theorems': pr['theorems'], 'detail': pr['log'][-2500:]})
         self.cov['print_assumptions'] = ('Closed under the global context x%d' % pr['closed']) if not pr['axioms'] else pr['axioms']
         self.cov['theorems'] = pr['theorems']
+
+    def add_sim(self, r, codes=None):
+        """codes: predicate on failure codes relevant to this property (None: by code_props)."""
+        self.evaluations += r['scenarios']
+        self.traces += r['scenarios']
+        self.distinct += r['scenarios']
+        d = self.cov['distribution'].setdefault('sim:' + r['family'], {'scenarios': 0, 'events': 0, 'actions': {}, 'configs': {}})
+        d['scenarios'] += r['scenarios']
+        d['events'] += r['events']
+        for k, n in r.get('actions', {}).items():
+            d['actions'][k] = d['actions'].get(k, 0) + n
+        for k, n in r.get('configs', {}).items():
+            d['configs'][k] = d['configs'].get(k, 0) + n
+        self.cov['samples'] += r.get('samples', [])[:2]
+        if r['error']:
+            self.broken.append({'kind': 'correspondence', 'what': 'M2 %s could not run' % r['family'], 'detail': r['error']})
+            return
+        for f in r['failures']:
+            if (codes(f['code']) if codes else (self.pid in code_props(f['code']))):
+                self.concrete.append({'key': 'M2:%s:%d' % (r['family'], f['code']), 'kfkey': 'code%d' % f['code'], 'where': 'M2 ' + r['family'],
+                                      'scenario': f['scenario'], 'code': f['code'], 'meaning': CODE_TEXT.get(f['code'], '?'),
+                                      'action': f['act'], 'a': f['a'], 'b': f['b'], 'seed': r['seed'], 'trace': r.get('trace')})
+        for a in r['abnormal']:
+            self.concrete.append({'key': 'M2:%s:abnormal' % r['family'], 'kfkey': 'abnormal', 'where': 'M2 ' + r['family'],
+                                  'scenario': a['scenario'], 'meaning': 'scenario ended abnormally (panic, or goroutines of the bubble left blocked): ' + a['status'][:300],
+                                  'seed': r['seed'], 'trace': r.get('trace')})
 
     def add_unit(self, r):
         self.evaluations += r['cases']
